@@ -113,3 +113,20 @@ def merge_wants(msg, wants):
         for k, s in enumerate(o["opt"]):
             if s["p"]: w["opt"][k] = s
     return w
+
+
+def minimal_value(name):
+    """shortest well-formed message value of a table: mandatory slots at minimum length, contents zero, header octets set"""
+    t = TBL[name]; hdr = header(name)
+    mand = []
+    for k, s in enumerate(x for x in t["slots"] if x["mand"]):
+        if k < len(hdr):
+            mand.append(dict(p=True, iei=0, len=0, v=[hdr[k]])); continue
+        if s["lsz"] == 0:
+            mand.append(dict(p=True, iei=0, len=0, v=[0] * s["max"]))
+        else:
+            mn = min(s["lens"]) if s["lens"] else s["min"]
+            v = [0] * (s["cap"] if s["data"] == "arr" else mn)
+            mand.append(dict(p=True, iei=0, len=mn, v=v))
+    opt = [dict(p=False, iei=0, len=0, v=[]) for s in t["slots"] if not s["mand"]]
+    return dict(mand=mand, opt=opt)
